@@ -452,7 +452,6 @@ func c11Phase2(r *Run, scn Scenario, U []Account, states []*Node, known map[stri
 	}
 }
 
-
 func bech32Encode(prefix string, data []byte) (string, error) {
 	return sdkbech32.ConvertAndEncode(prefix, data)
 }
